@@ -120,8 +120,8 @@ class AddEnclosingMiddleware(BlockMiddleware):
         enclosing = self._default_enclosing
         if self._reuse_previous_enclosing and metadata_enclosing is not None:
             enclosing = metadata_enclosing
-        elif apply_int_rule and not self._enclose_integers and value.isdigit():
-            return value
+        elif apply_int_rule and not self._enclose_integers and str(value).isdigit():
+            return str(value)
 
         if enclosing == "{":
             return f"{{{value}}}"
